@@ -276,7 +276,9 @@ class REGCV1ModelBase(Model):
         """
         Disable the corresponding `StaticGen`s.
         """
-        self.system.groups['StaticGen'].set(src='u', idx=self.gen.v, attr='v', value=0)
+        # only devices in service replace their static counterparts
+        mask_idx = [self.gen.v[i] for i in range(self.n) if self.u.v[i] == 1]
+        self.system.groups['StaticGen'].set(src='u', idx=mask_idx, attr='v', value=0)
 
 
 class VSGOuterPIModel:
